@@ -36,6 +36,7 @@ const (
 	timePath = "cqosverif/vrt/vtime"
 	syncPath = "cqosverif/vrt/vsync"
 	ctxPath  = "cqosverif/vrt/vcontext"
+	atomPath = "cqosverif/vrt/vatomic"
 )
 
 type multi []string
@@ -301,7 +302,7 @@ func verify(name string, src []byte) {
 	}
 	for _, im := range f.Imports {
 		p, _ := strconv.Unquote(im.Path.Value)
-		if p == "time" || p == "sync" || p == "context" {
+		if p == "time" || p == "sync" || p == "context" || p == "sync/atomic" {
 			fatalf("%s: import %q survived the rewrite", name, p)
 		}
 	}
@@ -397,6 +398,8 @@ func (rw *rewriter) run() {
 			np, base = syncPath, "sync"
 		case "context":
 			np, base = ctxPath, "context"
+		case "sync/atomic":
+			np, base = atomPath, "atomic"
 		default:
 			continue
 		}
@@ -548,6 +551,17 @@ func (rw *rewriter) noteLoops() {
 		sites[n] = site
 		seen := map[*types.Var]bool{}
 		var vars []*types.Var
+		if rs, ok := n.(*ast.RangeStmt); ok && rs.Tok == token.DEFINE {
+			if isCh, _ := rw.isChan(rs.X); isCh {
+				// the element variable of a range over a channel is assigned afresh from an
+				// observed event at every iteration and dead at the end of the body
+				if id, ok := rs.Key.(*ast.Ident); ok {
+					if v, ok := rw.info.Defs[id].(*types.Var); ok {
+						seen[v] = true
+					}
+				}
+			}
+		}
 		ast.Inspect(n, func(m ast.Node) bool {
 			id, ok := m.(*ast.Ident)
 			if !ok || id.Name == "_" {
@@ -567,8 +581,7 @@ func (rw *rewriter) noteLoops() {
 			if v.Pos() >= body.Lbrace && v.Pos() < body.Rbrace {
 				return true // lives for one iteration only
 			}
-			b, ok := v.Type().Underlying().(*types.Basic)
-			if !ok || b.Info()&(types.IsBoolean|types.IsNumeric|types.IsString) == 0 || b.Info()&types.IsUntyped != 0 {
+			if !noteworthy(v.Type(), 0) {
 				return true
 			}
 			seen[v] = true
@@ -632,6 +645,42 @@ func (rw *rewriter) hasSchedulingPoint(b *ast.BlockStmt) bool {
 		return true
 	})
 	return found
+}
+
+// noteworthy: values whose content is state and can be hashed without following
+// pointers: scalars, values of a type parameter (the items), time.Time, and
+// arrays, slices and structs of these. Pointers, channels, maps, functions and
+// interfaces are not noted (a pointer's target is reachable from the object the
+// thread runs on or is not state of the loop).
+func noteworthy(t types.Type, depth int) bool {
+	if depth > 3 {
+		return false
+	}
+	if _, ok := t.(*types.TypeParam); ok {
+		return true
+	}
+	if n, ok := t.(*types.Named); ok && n.Obj().Pkg() != nil && n.Obj().Pkg().Path() == "time" && n.Obj().Name() == "Time" {
+		return true
+	}
+	switch u := t.Underlying().(type) {
+	case *types.Basic:
+		return u.Info()&(types.IsBoolean|types.IsNumeric|types.IsString) != 0 && u.Info()&types.IsUntyped == 0
+	case *types.Array:
+		return noteworthy(u.Elem(), depth+1)
+	case *types.Slice:
+		return noteworthy(u.Elem(), depth+1)
+	case *types.Struct:
+		if u.NumFields() == 0 {
+			return false
+		}
+		for i := 0; i < u.NumFields(); i++ {
+			if !noteworthy(u.Field(i).Type(), depth+1) {
+				return false
+			}
+		}
+		return true
+	}
+	return false
 }
 
 func fnv64(s string) uint64 {
